@@ -36,7 +36,7 @@ func (f *fctx) stmts(list []ast.Stmt, e env, k *cont, ind string) (string, error
 		return f.stmts(rest, e, k, ind)
 	}
 	// prefix target: stop before the first statement calling opt.Upto
-	if k == nil && f.opt != nil && f.opt.Upto != "" && f.inLoop == 0 && len(f.frames) == 0 && callsOf(st, f.opt.Upto) {
+	if k == nil && f.opt != nil && f.opt.Upto != "" && f.inLoop == 0 && len(f.frames) == 0 && f.uptoCall(st, e) != nil {
 		return f.cutHere(st, e, ind)
 	}
 	next := func(pre string) (string, error) {
@@ -142,6 +142,21 @@ func (f *fctx) stmts(list []ast.Stmt, e env, k *cont, ind string) (string, error
 			return l, err
 		}
 		return next(l)
+
+	case *ast.ExprStmt:
+		// prefix target: a call that mentions no local variable (evalOnce.Do(evalRoutines)) cannot change
+		// the values of the locals the prefix yields
+		if f.opt != nil && f.opt.Upto != "" && k == nil {
+			local := false
+			for _, id := range idents(s.X) {
+				if _, ok := e[id]; ok {
+					local = true
+				}
+			}
+			if _, isCall := s.X.(*ast.CallExpr); isCall && !local {
+				return f.stmts(rest, e, k, ind)
+			}
+		}
 	}
 	return "", f.errf(st, "unsupported statement %T", st)
 }
@@ -431,15 +446,119 @@ func (f *fctx) retValue(s ast.Node, r ast.Expr, want typ, e env) (string, error)
 	return v.s, nil
 }
 
+// the first call of the prefix target's Upto in st: "f" = the function f of this package or a call
+// spelled f; "T.m" = the method m called on a value of the struct type T (whatever it is called);
+// otherwise the spelling of the callee ("evalOnce.Do")
+func (f *fctx) uptoCall(st ast.Stmt, e env) *ast.CallExpr {
+	var hit *ast.CallExpr
+	ast.Inspect(st, func(n ast.Node) bool {
+		c, ok := n.(*ast.CallExpr)
+		if !ok || hit != nil {
+			return hit == nil
+		}
+		if exprString(c.Fun) == f.opt.Upto {
+			hit = c
+			return false
+		}
+		if key, recv := f.calleeOf(c, e); recv != nil && key == f.opt.Upto {
+			hit = c
+			return false
+		}
+		return true
+	})
+	return hit
+}
+
+// is the variable name assigned (or declared again) in body at or after statement st?
+func assignedAfter(body *ast.BlockStmt, st ast.Stmt, name string) bool {
+	hit := false
+	ast.Inspect(body, func(n ast.Node) bool {
+		if n == nil || n.End() <= st.Pos() {
+			return n != nil && n.End() > st.Pos()
+		}
+		switch x := n.(type) {
+		case *ast.AssignStmt:
+			if x.Pos() >= st.Pos() {
+				for _, l := range x.Lhs {
+					if k, ok := lhsKey(l); ok && strings.SplitN(k, ".", 2)[0] == name {
+						// the cut statement itself may declare other variables; an assignment of name counts
+						hit = true
+					}
+				}
+			}
+		case *ast.IncDecStmt:
+			if k, ok := lhsKey(x.X); ok && x.Pos() >= st.Pos() && strings.SplitN(k, ".", 2)[0] == name {
+				hit = true
+			}
+		case *ast.UnaryExpr:
+			if id, ok := x.X.(*ast.Ident); ok && x.Op == token.AND && id.Name == name {
+				hit = true
+			}
+		}
+		return true
+	})
+	return hit
+}
+
 // prefix target: the values of the Yield expressions just before statement st
 func (f *fctx) cutHere(st ast.Stmt, e env, ind string) (string, error) {
 	var vs []string
 	var ts []typ
+	var exprs []ast.Expr
+	var names []string
 	for _, y := range f.opt.Yield {
 		ex, err := parser.ParseExpr(y)
 		if err != nil {
 			return "", f.errf(st, "yield expression %q: %v", y, err)
 		}
+		exprs, names = append(exprs, ex), append(names, y)
+	}
+	if len(f.opt.YieldArgs) != 0 {
+		c := f.uptoCall(st, e)
+		for _, i := range f.opt.YieldArgs {
+			if i >= len(c.Args) {
+				return "", f.errf(st, "the call of %s has no argument %d", f.opt.Upto, i)
+			}
+			exprs, names = append(exprs, c.Args[i]), append(names, exprString(c.Args[i]))
+		}
+	}
+	if len(f.opt.YieldRet) != 0 {
+		// what the function returns there, provided every return statement returns the same expression
+		for _, i := range f.opt.YieldRet {
+			var ex ast.Expr
+			var bad error
+			ast.Inspect(f.p.funcs[f.key].Body, func(n ast.Node) bool {
+				switch x := n.(type) {
+				case *ast.FuncLit:
+					return false
+				case *ast.ReturnStmt:
+					if i >= len(x.Results) {
+						bad = f.errf(x, "return without result %d", i)
+					} else if ex != nil && exprString(ex) != exprString(x.Results[i]) {
+						bad = f.errf(x, "the return statements return different expressions as result %d", i)
+					} else {
+						ex = x.Results[i]
+					}
+				}
+				return true
+			})
+			if bad != nil || ex == nil {
+				if bad == nil {
+					bad = f.errf(st, "no return statement")
+				}
+				return "", bad
+			}
+			// the expression must mean the same at the cut as at the return: its variables are not assigned after the cut
+			for _, id := range idents(ex) {
+				if b := e.get(id); b != nil && assignedAfter(f.p.funcs[f.key].Body, st, id) {
+					return "", f.errf(st, "result %d (%s) is assigned after the call of %s", i, exprString(ex), f.opt.Upto)
+				}
+			}
+			exprs, names = append(exprs, ex), append(names, exprString(ex))
+		}
+	}
+	for j, ex := range exprs {
+		y := names[j]
 		v, err := f.expr(ex, e)
 		if err != nil {
 			return "", fmt.Errorf("%v (yield expression %q)", err, y)
